@@ -27,8 +27,8 @@ THEMES = {
                 ["<!DOCTYPE", "<!DOCTYPE ", "<!DOCTYPE a", "<!DOCTYPE a ", "<!DOCTYPE a PUBLIC", '<!DOCTYPE a PUBLIC "',
                  '<!DOCTYPE a PUBLIC "x"', "<!DOCTYPE a SYSTEM", "<!DOCTYPE a SYSTEM '", "<!DOCTYPE a SYSTEM 'x'", "<!doc", ""],
                 [("data", None, False)]),
-    "raw": (["<", "/", "a", ">", " ", "-", "!", "script", "title", "SCRIPT", "&", NUL, "x", "\r"],
-            ["", "<!--", "<!--<script", "<!--<script>", "</", "<!--<script></script"],
+    "raw": (["<", "/", "a", ">", " ", "-", "!", "script", "title", "SCRIPT", "&", NUL, "x", "\r", "</script", "</ScRiPt"],
+            ["", "<!--", "<!--<script", "<!--<script>", "</", "<!--<script></script", "<!--<SCRIPT></ScRiPt", "<!--<ScRiPt", "</TITLE", "</STYLE"],
             [("rcdata", "title", False), ("rawtext", "style", False), ("script_data", "script", False),
              ("plaintext", "plaintext", False), ("rcdata", None, False), ("script_data", "title", False),
              ("rawtext", "xmp", False), ("rcdata", "a", False)]),
@@ -110,7 +110,7 @@ def replay(harness, config, case):
 def run(run):
     quick = run.tier == "quick"
     depth = {"tag": 5 if quick else 6, "cmt": 8 if quick else 11, "doctype": 5 if quick else 7,
-             "raw": 6 if quick else 8, "ref": 4 if quick else 5, "cdata": 6 if quick else 9}
+             "raw": 5 if quick else 7, "ref": 4 if quick else 5, "cdata": 6 if quick else 9}
     only = os.environ.get("VERIF_THEMES")
     total_states = total_trans = 0
     bis_checks = bis_fail = 0
